@@ -554,6 +554,11 @@ func generate() {
 			w8("pktStream", m, 45)
 		}
 	}
+	for i, m := range packetsValid(false) {
+		if i == 1 || i == 2 {
+			w8("pktWire", m, 45)
+		}
+	}
 	for _, name := range resultDecs {
 		for i, m := range resultMsgs(name) {
 			if i == 0 || (i == 1 && (name == "Ls" || name == "Registry" || name == "Mounts" || name == "UserLogins" || name == "ProcessList" || name == "WindowList")) {
